@@ -75,6 +75,16 @@ class Unpack:
                         hit = [l for l in lks if may(inner, lambda x, l=l: x is l)]
                         if hit:
                             self.elem_sinks.append((fn, e, inner, hit[0]))
+        # element sinks in "push" form: the disclosed array element is pushed straight into the array under construction (the lookup was inlined
+        # into the array walker, or the lookup function fills a `&mut Vec<Value>` out-parameter) instead of being returned as Ok(Some(..))
+        self.push_sink_bbs = set()
+        for (fn, b, n) in self.arr_pushes:
+            lks = [l for (f, _, l) in self.lookups if f is fn]
+            hit = [l for l in lks if len(n.kids) > 1 and may(n.kids[1], lambda x, l=l: x is l)]
+            if hit:
+                site = {"bb": b, "line": fn.term(b).get("line"), "kind": "push", "idx": len(fn.blocks[b]["stmts"])}
+                self.elem_sinks.append((fn, site, n.kids[1], hit[0]))
+                self.push_sink_bbs.add((fn.name, b))
         self.ok = True
 
     def lookup_success(self, fn, node):
@@ -255,16 +265,22 @@ def dup_guard(fn, site_bb, key, same_key):
     fv = vals(fn)
     tests = {}    # field -> good edges
     records = {}  # field -> recording blocks
+    import common as _c
     for (bb, tt, ft, c) in bool_switches(fn):
         if c.kind != "call" or len(c.kids) != 2:
             continue
         nm = c.d["term"].get("name")
+        mb = _c.membership(c)
+        if mb is not None:
+            cont = peel(mb[0])
+            F = cont.d.get("name") if cont.kind == "field" else None
+            if F is not None and same_key(mb[1], key):
+                tests.setdefault(F, []).append((bb, ft))
+            continue
         F = _seen_field(c)
         if F is None or not same_key(c.kids[1], key):
             continue
-        if nm == "contains":
-            tests.setdefault(F, []).append((bb, ft))
-        elif nm == "insert" and (c.d["term"].get("self_ty") or "").startswith(SET_TYS):
+        if nm == "insert" and (c.d["term"].get("self_ty") or "").startswith(SET_TYS):
             tests.setdefault(F, []).append((bb, tt))
     for b2, t2 in fn.calls():
         if t2.get("name") not in ("push", "insert", "push_back"):
